@@ -385,6 +385,10 @@ func reachFromEdge(b *ssa.BasicBlock, i int, cut edgePred) map[*ssa.BasicBlock]b
 // onlyVia reports whether instruction target is reachable from fn's entry only through edges
 // for which p holds for one of the facts (i.e. unreachable once they are cut).
 func onlyVia(fn *ssa.Function, target *ssa.BasicBlock, p func(Fact) bool) bool {
+	// a block of a helper (a literal moved into a constructor): judged in the helper, then at its calls
+	if target != nil && target.Parent() != nil && target.Parent() != fn {
+		fn = target.Parent()
+	}
 	if !reachEntry(fn, factCut(p))[target] {
 		return true
 	}
